@@ -33,7 +33,7 @@ pub struct UnkWord {
     left_id: u16,
     right_id: u16,
     word_cost: i16,
-    word_id: u16,
+    word_id: u32,
 }
 
 impl UnkWord {
@@ -54,7 +54,7 @@ impl UnkWord {
 
     #[inline(always)]
     pub fn word_idx(&self) -> WordIdx {
-        WordIdx::new(LexType::Unknown, u32::from(self.word_id))
+        WordIdx::new(LexType::Unknown, self.word_id)
     }
 }
 
@@ -130,7 +130,7 @@ impl UnkHandler {
                 left_id: e.left_id,
                 right_id: e.right_id,
                 word_cost: e.word_cost,
-                word_id: word_id as u16,
+                word_id: u32::try_from(word_id).unwrap(),
             });
         }
         f
